@@ -55,7 +55,7 @@ func init() {
 		ID:    "C12",
 		Level: "exploration",
 		Rule: "case = (world, query with <=K fields) run under 6 datasets (list length 1, default, 5, 20, duplicates in lists, duplicates+5): per service the number of batched HTTP calls must be <= the number of plan levels " +
-			"(from the real planner's step tree; operations using the root node() entry point are excluded, see C01 finding) in which the service appears and identical for every list length; within one batched call no two id-only node lookups may carry the same (id, query); " +
+			"(from the real planner's step tree; operations using the root node() entry point are excluded, see C01 finding) in which the service appears and identical for every list length, also when any one of the downstream calls fails (status 500 / transport error; list length default and 5); within one batched call no two id-only node lookups may carry the same (id, query); " +
 			"with duplicate entities the stitched answer must still equal the reference; non-trivial = plan with >=2 levels",
 		Assumptions: []string{"with the default batch size 3000 one Queryer.Query call is one HTTP call", "plan levels are taken from SequentialPlanner.Plan called directly"},
 		Jobs:        c12Jobs,
@@ -130,6 +130,35 @@ func init() {
 					for si, s := range f.W.Services {
 						if per[si] > len(levels[s.URL]) {
 							set["service called more often than the number of plan levels it appears in"] = true
+						}
+					}
+					// a failing call must not be made up for by more calls: every downstream call of the
+					// fault-free run fails once (status 500 / transport error), the bound still holds
+					if di == 1 || di == 2 {
+						ncalls := len(o.Calls)
+						for ci := 0; ci < ncalls; ci++ {
+							for _, kind := range []string{"status500", "transport"} {
+								ci, kind := ci, kind
+								f.Fakes.Reset()
+								f.Fakes.FaultFor = func(call, svc, n int) *Fault {
+									if call == ci {
+										return &Fault{Kind: kind}
+									}
+									return nil
+								}
+								f.Post(caseBody(c), "application/json")
+								f.Fakes.FaultFor = nil
+								perF := map[int]int{}
+								for _, hc := range f.Fakes.Calls {
+									perF[hc.Svc]++
+								}
+								for si, s := range f.W.Services {
+									if perF[si] > len(levels[s.URL]) {
+										set["service called more often than the number of plan levels it appears in when one call fails"] = true
+									}
+								}
+								em.Extra("fault-runs", 1)
+							}
 						}
 					}
 					if di < 4 {
